@@ -587,14 +587,20 @@ def emit_fn(out, entry, mode, stats, canary=False):
             if [x for x in fparts if x.startswith("$")] != [x for x in tparts if x.startswith("$")]:
                 raise SystemExit(f"{entry.id}: holes of //@subst differ between pattern and replacement")
             if len(fparts) == 1:
+                want_all_ = tag.endswith("*")
                 tag = tag.rstrip("*")
-                r = find_snippet(sf, bo + 1, last, frm)
-                if r is None:
-                    if optional:
-                        continue
-                    raise LostAnchor(f"{entry.id}: subst source {frm!r} not found")
-                edits.append((r[0], r[1] + 1, to, dict(kind="gen", fn=entry.id, norm=tag)))
-                stats.count(tag.lstrip("#"))
+                occ = 1
+                while True:
+                    r = find_snippet(sf, bo + 1, last, frm, occ)
+                    if r is None:
+                        if occ == 1 and not optional:
+                            raise LostAnchor(f"{entry.id}: subst source {frm!r} not found")
+                        break
+                    edits.append((r[0], r[1] + 1, to, dict(kind="gen", fn=entry.id, norm=tag)))
+                    stats.count(tag.lstrip("#"))
+                    if not want_all_:
+                        break
+                    occ += 1
                 continue
             # pattern with holes: match the literal runs in order; each hole = content up to the matching close bracket
             lit = [[t.text for t in tokenize(x) if t.kind not in (WS, COMMENT)] for x in fparts[0::2]]
